@@ -1111,7 +1111,7 @@ Section QI.
       rewrite Hrr. cbn [Nat.eqb].
       destruct HP as [_ HP2].
       destruct (update_warmup_spec s1 x w mark c inp HM0 Hmb HR0 Hk Hh HposH
-                  ltac:(subst s1; prj; unfold hh in *; lia) Ht (HP2 HR0) Hw)
+                  ltac:(subst s1; unfold hh in *; prj; lia) Ht (HP2 HR0) Hw)
         as (s' & c' & E & HR' & HP' & Hsum & Ek & En & Eg).
       exists s', c'. split; [exact E|]. split; [exact HR'|]. split; [exact HP'|]. split; [exact Hsum|].
       split; [exact En|]. split; [exact Ek|]. split; [exact Eg|].
@@ -1137,14 +1137,15 @@ Section QI.
         unfold hh in Hne. destruct (vH s); [simpl in Hne; lia|congruence]. }
       rewrite Hvalid.
       change (vtot s1) with (vtot s).
-      assert (Hfin : forall r', (exists s' c', r' = Some (s', c') /\ Post s1 s' inp x w /\
+      assert (Hfin : forall r' : option (vo * chs), (exists s' c', r' = Some (s', c') /\ Post s1 s' inp x w /\
                                   vtot s1 * qn (rr s') <= vtot s' * qn (rr s1)) ->
                 exists s' c', r' = Some (s', c') /\ Rest s' /\ provR s' (inp ++ [(x, w)]) /\
                   sumw (vH s') + vtot s' == sumw (vH s) + vtot s + w /\
                   vn s' = (vn s + 1)%Z /\ vk s' = vk s /\ vgad s' = vgad s /\
                   (Est s -> Est s' /\ vtot s * qn (rr s') <= vtot s' * qn (rr s))).
       { intros r' (s' & c' & E & (HR' & HE' & HP' & Hsum & Ek & En & Eg) & Htau).
-        exists s', c'. repeat split; auto. }
+        exists s', c'. split; [exact E|]. split; [exact HR'|]. split; [exact HP'|]. split; [exact Hsum|].
+        split; [exact En|]. split; [exact Ek|]. split; [exact Eg|]. intros _. split; [exact HE'|exact Htau]. }
       destruct (((hh s =? 0)%nat || Qle_bool w (peek_min Item ditem Q 0 s1)) &&
                 Qltb w ((w + vtot s) / qn (rr s)))%bool eqn:Ecase.
       + apply Hfin. apply andb_true_iff in Ecase. destruct Ecase as [Ec1 Ec2].
